@@ -527,6 +527,10 @@ func (s *state) evalCall(node *ast.CallNode) {
 		}
 	}
 
+	// the params have been evaluated: an error raised by the callee is
+	// reported at this {call}, not at its last {param}
+	s.node = node
+
 	callData.enter()
 	state := &state{
 		tmpl:       calledTmpl,
